@@ -49,7 +49,7 @@ class Preempt(object):
         self.boundaries_seen = 0
 
     # -- shared boundary logic --
-    def at_instruction(self, code, offset):
+    def at_instruction(self, code, offset, entry=False):
         if not self.active or self.in_callback or threading.get_ident() != self.ident:
             return
         ops = ops_of(code)
@@ -60,7 +60,11 @@ class Preempt(object):
         prev = self.prev.get(id(code))
         self.prev[id(code)] = op
         kind = None
-        if op in RESUME_OPS:
+        if entry and PY < (3, 11):
+            # no RESUME instruction before 3.11: the eval-breaker check on function entry
+            kind = "resume"
+            self.prev[id(code)] = None
+        elif op in RESUME_OPS:
             kind = "resume"
         elif op in BACK_OPS:
             if op != "JUMP_ABSOLUTE" or (isinstance(argval, int) and argval <= offset):
@@ -123,7 +127,7 @@ class Preempt(object):
             frame.f_trace_lines = False
             if event == "call":
                 # the 'call' event stands for RESUME / function entry
-                self.at_instruction(frame.f_code, frame.f_lasti if frame.f_lasti >= 0 else 0)
+                self.at_instruction(frame.f_code, frame.f_lasti if frame.f_lasti >= 0 else 0, entry=True)
             return self._trace_local
         return None
 
